@@ -270,3 +270,35 @@ func (rig *NotifyRig) waitCounts(want int, d time.Duration) {
 		time.Sleep(200 * time.Microsecond)
 	}
 }
+
+// EventCounter is a notification channel for the in-package rigs: it counts ADD events per block hash.
+type EventCounter struct {
+	mu   sync.Mutex
+	Seen map[string]int
+}
+
+// Notify implements notification.Channel.
+func (e *EventCounter) Notify(ev notification.Event) {
+	r, ok := fromEvent(ev)
+	e.mu.Lock()
+	defer e.mu.Unlock()
+	if e.Seen == nil {
+		e.Seen = map[string]int{}
+	}
+	if !ok || r.Op != "ADD" {
+		e.Seen["?"+r.Op]++
+		return
+	}
+	e.Seen[r.Hash]++
+}
+
+// Snapshot returns a copy of the counters.
+func (e *EventCounter) Snapshot() map[string]int {
+	e.mu.Lock()
+	defer e.mu.Unlock()
+	m := make(map[string]int, len(e.Seen))
+	for k, v := range e.Seen {
+		m[k] = v
+	}
+	return m
+}
